@@ -48,6 +48,9 @@ def sync_gosum():
     src = os.path.join(REPO, "go.sum")
     if not os.path.exists(dst) and os.path.exists(src):
         shutil.copy(src, dst)
+    # VERIF_REPO: run against another checkout (background sweeps on a snapshot); the registered checks use /repo
+    if REPO != "/repo":
+        sh([GO, "mod", "edit", "-replace", "github.com/b2broker/simplefix-go=" + REPO], cwd=HARNESS, env=goenv(), timeout=60)
 
 
 def go_build(pkg, name, tags=None, race=False):
